@@ -117,7 +117,7 @@ def calculate_sequence_locks(ctx, P):
     # writes to the two minima
     anc = r"(?:ASSERT\()?block\.GetAncestor\(std::max\(" + ph + r" - 1, 0\)\)\)?\.GetMedianTimePast\(\)"
     want = {
-        T: (re.compile(re.escape("%s = std::max(%s, (((65535 & " % (T, T)) + seq + re.escape(") << 9) + ") + anc + re.escape(") - 1)")), "SIZES && V2 && FLAG && !DISABLE && TIME",
+        T: (re.compile(re.escape("%s = std::max(%s, (" % (T, T)) + r"(?:\(int64_t\))?" + re.escape("((65535 & ") + seq + re.escape(") << 9) + ") + anc + re.escape(") - 1)")), "SIZES && V2 && FLAG && !DISABLE && TIME",
             "min time = max(min time, MTP(ancestor at max(coin height - 1, 0)) + ((nSequence & 0xffff) << 9) - 1), exactly for enabled time-based inputs"),
         H: (re.compile(re.escape("%s = std::max(%s, (" % (H, H)) + r"(\(int\))?" + re.escape("(65535 & ") + seq + re.escape(") + ") + ph + re.escape(") - 1)")), "SIZES && V2 && FLAG && !DISABLE && !TIME",
             "min height = max(min height, coin height + (nSequence & 0xffff) - 1), exactly for enabled height-based inputs"),
